@@ -40,7 +40,7 @@ SIZES = {
     "stall": ((6, 1, 5, 100), (16, 3, 7, 100)),
     "stallmem": ((8, 1, 7, 100), (16, 4, 9, 100)),
     "latesigs": ((3, 1, 2, 100), (16, 2, 2, 100)),
-    "longsilent": ((8, 1, 4, 100), (16, 4, 6, 100)),
+    "longsilent": ((8, 1, 4, 100), (16, 4, 4, 100)),   # cache 200 on node 0 is calibrated for at most 4 validators (with more, the node falls below its supported cache window and stalls everybody when the live validators are exactly a supermajority)
 }
 
 def _tool_fingerprint():
@@ -113,7 +113,7 @@ def run(ctx, flavour="static"):
     with ThreadPoolExecutor(max_workers=16) as ex:
         res = list(ex.map(_shard, jobs))
     diffs, vlines, stats, crashed, cases, samples = [], [], [], [], 0, []
-    window = dict(max_gap=0, table_insertions=0, at_or_below=0)   # runner W line (Model/Window.v), summed over the shards
+    window = dict(max_gap=0, table_insertions=0, at_or_below=0, gap_bound_exceeded=0)   # runner W line (Model/Window.v), summed over the shards
     for r in res:
         if r["sim_rc"] != 0:
             crashed.append("sim shard %d seed %d rc=%d: %s" % (r["shard"], r["seed"], r["sim_rc"], r["sim_err"][-600:]))
@@ -122,10 +122,11 @@ def run(ctx, flavour="static"):
             crashed.append("runner shard %d: %s" % (r["shard"], r["runner_out"][-600:]))
         else:
             cases += int(m.group(1))
-        wm = re.search(r"^W max-gap=(\d+) table-insertions=(\d+) at-or-below-last-round=(\d+)", r["runner_out"], re.M)
+        wm = re.search(r"^W max-gap=(\d+) table-insertions=(\d+) at-or-below-last-round=(\d+)(?: gap-bound-exceeded=(\d+))?", r["runner_out"], re.M)
         if wm:
             window["max_gap"] = max(window["max_gap"], int(wm.group(1)))
             window["table_insertions"] += int(wm.group(2)); window["at_or_below"] += int(wm.group(3))
+            window["gap_bound_exceeded"] += int(wm.group(4) or 0)
         for l in r["runner_out"].splitlines():
             if l.startswith("DIFF"):
                 diffs.append("shard=%d seed=%d %s" % (r["shard"], r["seed"], l[:600]))
